@@ -38,7 +38,70 @@ fn cq(rng: &mut Rng, prog: &mut NetProgram, typical_gap_ns: u64) {
 
 // ---------------------------------------------------------------- C08
 
+/// Dynamic topology: a hub whose spokes are partly wired by the builder and partly by the driver while the simulation
+/// is paused, all links built from one shared channel handle (the "template" pattern). The later connect calls may
+/// fall into a moment in which the shared handle is transmitting.
+fn gen_c08_dynamic(rng: &mut Rng) -> NetProgram {
+    let k = 2 + rng.small(3) as usize;
+    let mut prog = NetProgram { seed: rng.u64(), share_channels: true, ..Default::default() };
+    prog.modules.push(ModSpec { name: "hub".into(), parent: -1, stages: 1, gates: vec![("q".into(), k as u8)], panic_at: 255, ..Default::default() });
+    for i in 0..k {
+        prog.modules.push(ModSpec { name: format!("s{i}"), parent: -1, stages: 1, gates: vec![("q".into(), 1)], panic_at: 255, ..Default::default() });
+    }
+    prog.order = (0..=k as u32).collect();
+    let bitrate = *rng.pick(&[8_000u64, 80_000, 1_000_000]);
+    let tmpl = Chan { bitrate, latency_ns: *rng.pick(&[0u64, 1_000_000]), jitter_ns: 0, queue: -1 };
+    let n_static = 1 + rng.usize(k - 1);
+    // phase 1: traffic over the links of the builder keeps the shared handle (and the duplicates) transmitting
+    let mut window = 0u64;
+    for i in 0..n_static {
+        prog.links.push(Link { am: 0, ag: i as u32, bm: 1 + i as u32, bg: 0, flip: rng.chance(1, 2), chan: Some(tmpl.clone()) });
+        for (m, g) in [(0usize, i as u32), (1 + i, 0u32)] {
+            if rng.chance(2, 3) {
+                let n = 1 + rng.small(3) as usize;
+                let mut acts = Vec::new();
+                for _ in 0..n {
+                    let body = rng.below(6) as u8;
+                    window += busy_ns(64 + body_decl_len(body), bitrate);
+                    acts.push(Act::Send { gate: g, delay_ns: 0, body });
+                }
+                prog.modules[m].beats.push(Beat { at_ns: SEC, acts });
+            }
+        }
+    }
+    // phase 2: the remaining spokes are connected at run time, inside or after the transmission window
+    let mut last_link = SEC;
+    for i in n_static..k {
+        let at = SEC + match rng.below(4) {
+            0 => window + 1 + rng.below(SEC),
+            _ => 1 + rng.below(window.max(2)),
+        };
+        last_link = last_link.max(at);
+        prog.late_links.push((at, Link { am: 0, ag: i as u32, bm: 1 + i as u32, bg: 0, flip: rng.chance(1, 2), chan: if rng.chance(5, 6) { Some(tmpl.clone()) } else { None } }));
+    }
+    // phase 3: traffic over every link, both directions, well after the last connect call
+    let mut t = last_link + window + 100 * SEC;
+    for i in 0..k {
+        for (m, g) in [(0usize, i as u32), (1 + i, 0u32)] {
+            if rng.chance(3, 4) {
+                let n = 1 + rng.small(2) as usize;
+                let acts = (0..n).map(|_| Act::Send { gate: g, delay_ns: 0, body: rng.below(6) as u8 }).collect();
+                prog.modules[m].beats.push(Beat { at_ns: t, acts });
+                t += if rng.chance(1, 3) { 0 } else { 10 * SEC };
+            }
+        }
+    }
+    for m in &mut prog.modules {
+        m.beats.sort_by_key(|b| b.at_ns);
+    }
+    cq(rng, &mut prog, 10 * SEC);
+    prog
+}
+
 pub fn gen_c08(rng: &mut Rng, tier: Tier) -> NetProgram {
+    if rng.chance(1, 8) {
+        return gen_c08_dynamic(rng);
+    }
     let nmod = 2 + rng.small(6) as usize;
     let mut prog = NetProgram { seed: rng.u64(), ..Default::default() };
     for i in 0..nmod {
